@@ -308,6 +308,34 @@ def r4(F, R):
                     fconsts += [const_str(a) for a in t["args"] if const_str(a) is not None]
                 for _, st in nb.assigns():
                     fconsts += [const_str(o) for o in A.rvalue_operands(st["rv"]) if const_str(o) is not None]
+        # the id appended to a record is found on ANY span enclosing the log event (the scenario's span need not be the root:
+        # the run itself may execute inside a user's span): the `extensions().get::<ScenarioId>()` probe sits in a search over
+        # the whole scope (find_map / filter_map / any / find ...), or in a loop over it — not on one chosen span
+        probes = []
+        for x in fm:
+            for nb in roles.family(F, x):
+                for s_, t_ in nb.calls(lambda t_: callee_is(t_, r"Extensions(::<.*>)?::get$|ExtensionsInner::get$|::get$") and "ScenarioId" in " ".join((op_fn(t_["func"]) or {}).get("targs", []) or [])):
+                    probes.append((nb, s_, t_))
+        ok_scope = bool(probes)
+        WHOLE = r"Iterator::(find_map|filter_map|find|any|flat_map|map|filter|for_each|fold|try_fold|rev)$"
+        for nb, s_, t_ in probes:
+            good = False
+            cc = A.closure_creation(F, nb) if nb.kind not in ("Fn", "AssocFn") else None
+            if cc is not None:
+                P, cs, st = cc
+                uses, _ = A.forward_uses(P, st["pl"]["l"])
+                for u in uses:
+                    if u[0].idx == "T":
+                        term = P.blocks[u[0].bb]["term"]
+                        if term["k"] == "call" and callee_is(term, WHOLE) and not callee_is(term, r"Option::"):
+                            good = True
+            if not good:
+                for sn, tn in nb.calls(lambda tn: callee_is(tn, r"Iterator::next$")):
+                    if s_.bb in A.natural_loop(nb, sn.bb):
+                        good = True
+            ok_scope = ok_scope and good
+        R.check(ok_scope, "id-searched-in-every-span", fm[0] if fm else w, "scope.from_root().find_map(|span| span.extensions().get::<ScenarioId>())",
+                "the scenario id is looked for on one chosen span only (e.g. the root): when the run executes inside a user's span every log is tagged `unknown` and broadcast to all scenarios")
         need = {"__cucumber__scenario", "__unknown", "__"}
         R.check(need <= set(consts), "writer-separators", w, "splits on END / NO_SCENARIO_ID / BEFORE_SCENARIO_ID", f"CollectorWriter::write uses separators {sorted(set(consts) & need)}")
         # the id / no-id markers are APPENDED to the formatted message (format_event writes them last), and the message
